@@ -364,6 +364,14 @@ def date_variant(src, b):
 GEN = {"number": (gen_number, number_variant), "string": (gen_string, string_variant), "date": (gen_date, date_variant)}
 
 
+def _date_key(b):
+    y, m, d = b["date"].rsplit("-", 2)
+    return (int(y), int(m), int(d))
+
+
+SORT_KEY = {"number": lambda b: dec.D(b["n"]), "string": lambda b: b["s"], "date": _date_key}
+
+
 def pool(src, kind, n):
     g, var = GEN[kind]
     out = [g(src)]
@@ -381,6 +389,10 @@ def gen_rand_pair(src):
 def gen_rand_triple(src):
     kind = src.choice(ORDERED)
     p = pool(src, kind, 3)
+    if src.bool(0.35):
+        # generator-side ordering only to steer x between the bounds (the judge never uses it)
+        a, x, b = sorted(p, key=SORT_KEY[kind])
+        return {"k": [kind] * 3, "v": [x, a, b]}
     # x is one of the bounds in a good share of the cases
     x = src.weighted([(6, p[0]), (2, p[1]), (2, p[2])])
     a, b = p[1], p[2]
